@@ -8,7 +8,7 @@ from vlib import coq
 from vlib.refloop import run_ref
 
 GENERATORS = []
-COQ_TARGETS = ['Cursor/BinaryCorr.vo', 'Passes/GcdaCorr.vo', 'Passes/PassCorr.vo']
+COQ_TARGETS = ['Cursor/BinaryCorr.vo', 'Passes/GcdaCorr.vo', 'Passes/PassCorr.vo', 'Passes/LinesCorr.vo']
 RULE = ('state probes: every (index,chunk,instances) with index<instances<=NMAX, 1<=chunk<=instances, '
         'advance/end/real_chunk/advance_on_success(0..n+1) of the real BinaryState vs the model; '
         'monotone runs: real LinesPass("None") / LineMarkersPass under the reference loop for every '
@@ -458,6 +458,52 @@ def explore(ctx):
         for b in badl[:5]:
             ctx.broke('correspondence', f'{fn} vs the real pass', f'case {cs[b][0][:200]} impl {cs[b][1][:60]}')
     ctx.lines_corr = None
+    # whole runs of the real LinesPass on ARBITRARY token texts (blank lines, duplicated lines, no final newline) against the byte-level
+    # loop breduce for which C06_lines_byte_loop_is_instance_loop / C06_lines_final_text_monotone are proved
+    from props.c07 import gen_text
+    from cvise.passes.lines import LinesPass
+
+    def ctb(b):
+        return ('[' + ';'.join(str(x) for x in b) + ']%N') if b else '(@nil N)'
+    brcases = []
+    for j in range(60 if ctx.quick() else 600):
+        text = gen_text(rnd, rnd.randint(2, 24)) if j % 5 else ''.join(rnd.choice(['a\n', 'b\n', '\n', 'a', '\x0c\n']) for _ in range(rnd.randint(1, 9)))
+        if '\r' in text:
+            continue
+        data = text.encode()
+        blines = re.findall(rb'[^\n]*\n|[^\n]+', data)
+        reqset = sorted({l for l in blines if rnd.random() < 0.35})
+        pth = os.path.join(ctx.tmp, 'tc-bytes.c')
+        with open(pth, 'wb') as f:
+            f.write(data)
+        cur = {'n': sum(1 for l in blines if l in reqset)}
+
+        def interesting(c):
+            # monotone on line contents: no removed line has a required content  <=>  the number of such lines is unchanged
+            got = sum(1 for l in re.findall(rb'[^\n]*\n|[^\n]+', open(c, 'rb').read()) if l in reqset)
+            return got == cur['n']
+        lp = LinesPass('None', {})
+        steps, final, reason = run_ref(lp, pth, interesting, ctx.tmp, observe=lambda st: (st.index, st.end(), st.instances), max_steps=(len(blines) + 2) * (len(blines) + 3) + 20)
+        ctx.evaluations += 1
+        ctx.count('lines:bytes-run')
+        if reason != 'exhausted' or any(not s_.result.startswith('OK') for s_ in steps):
+            ctx.violation('binary-lines-bytes', f'lines on {text!r} required {reqset}: the run ended with {reason} / {[s_.result for s_ in steps if not s_.result.startswith("OK")][:3]}', {'kind': 'lines-bytes', 'text': text})
+            continue
+        want = b''.join(l for l in blines if l in reqset)
+        if final != want:
+            ctx.violation('binary-lines-bytes', f'lines on {text!r}, monotone test requiring the lines {reqset}: final text {final!r}, the required lines are {want!r}', {'kind': 'lines-bytes', 'text': text})
+        if 0 < len(reqset) and want != data:
+            ctx.nontriv(('lines-bytes', text, tuple(reqset)))
+        out = [len(final)] + list(final)
+        for s_ in steps:
+            out += [s_.state_repr[0], s_.state_repr[1], s_.state_repr[2], 1 if s_.accepted else 0]
+        rl = '[' + '; '.join(ctb(l) for l in reqset) + ']' if reqset else '(@nil text)'
+        brcases.append((f'({ctb(data)}, {rl})', out))
+    badb = coq.corr_eval('c06bytes', ['From CV Require Import Passes.Edit Passes.LinesCorr.'], 'bytes_run_case', brcases, shard=40)
+    ctx.corr_cases += len(brcases)
+    ctx.corr_disagree += len(badb)
+    for b in badb[:5]:
+        ctx.broke('correspondence', 'breduce vs the real LinesPass run', f'case {brcases[b][0][:200]} impl {brcases[b][1][:60]}')
     # the real gcda candidates / cursor logs / final files against the model of Passes/Gcda.v, evaluated inside Coq
     gimports = imports + ['From CV Require Import Passes.Gcda Passes.GcdaCorr.']
     for key, fn in (('tr', 'gcda_tr_case'), ('rec', 'gcda_rec_case'), ('offs', 'gcda_offs_case'), ('run', 'gcda_run_case')):
@@ -561,7 +607,7 @@ def replay(ctx, payload):
 LEVEL_TEXT = ('Machine-checked theorems (Coq, closed under the global context) about a model of BinaryState and the '
               'sequential reduction loop: for every list, every verdict function and every required predicate — '
               'ranges in bounds, termination within (n+1)(n+2) candidates, exact result for monotone tests, all '
-              'singles tried and sweeps tiling 0..n when nothing was accepted, no skip after an accept; the IfPass cursor offers every range with both values; for gcda files the byte-level candidate built from the reported offsets is the record-level cut (every header, record sizes, cursor), is strictly shorter, and the pass\'s restarting loop is exact for monotone tests; the candidate of the lines / line-marker pass, read again, holds exactly the lines / markers of the file cut at [i,e) (bytes and instance lists agree). The model is '
+              'singles tried and sweeps tiling 0..n when nothing was accepted, no skip after an accept; the IfPass cursor offers every range with both values; for gcda files the byte-level candidate built from the reported offsets is the record-level cut (every header, record sizes, cursor), is strictly shorter, and the pass\'s restarting loop is exact for monotone tests; the candidate of the lines / line-marker pass, read again, holds exactly the lines / markers of the file cut at [i,e) (bytes and instance lists agree), and the byte-level loop (re-counting instances from each accepted candidate) computes exactly the instance-level loop, so for a monotone test the final text is the required lines. The model is '
               'tied to the real BinaryState / LinesPass / LineMarkersPass / GCDABinaryPass on every run by a correspondence check '
               'evaluated inside Coq; the property oracle is also evaluated directly on the real runs.')
 LEVEL_NOTE = ('Trusted: Coq kernel; hand-written model (validated each run against the code on exhaustive small state '
